@@ -134,5 +134,14 @@ theorem dump_cookie_max_size (idna : Str → Except String Str) (expires_in : In
         max_size' samesite partitioned := by
   apply PyFnsEq.Cookie.dump_cookie_max_size <;> assumption
 
+/-- `werkzeug.http.parse_cookie(environ)` for a WSGI environ (a dict), as translated from the current
+source (`header.get("HTTP_COOKIE")`, then the same latin-1 / UTF-8 dance): exactly the `str | None`
+form applied to the value stored under the key `HTTP_COOKIE` (`None` when absent). The key text is part
+of the translated definition. -/
+theorem http_parse_cookie_environ_eq (environ : List (Str × Str)) :
+    http_parse_cookie_environ environ () = http_parse_cookie (Pre.dictGet? environ "HTTP_COOKIE".toList) () := by
+  have hk : "HTTP_COOKIE".toList = ['H', 'T', 'T', 'P', '_', 'C', 'O', 'O', 'K', 'I', 'E'] := by decide
+  rw [hk]
+  rfl
 
 end Wz.Props.C13T
